@@ -27,7 +27,15 @@ template <class G> struct Invalid {
     ClauseSink &sink;
     G c;
     std::string keyBefore;
-    Invalid(const G &g, const Model &m, ClauseSink &s) : orig(g), m(m), sink(s), c(g), keyBefore(keyOf(g, true)) {}
+    bool huge = false; // very large graph: cheap key, only the extreme valid indices in the other argument positions
+    std::string key(const G &g) const {
+        if (!huge) return keyOf(g, true);
+        std::string k = std::to_string(g.getSize()) + "|" + std::to_string(g.getEdgeNumber()) + "|";
+        for (VertexIndex v : {(VertexIndex)0, (VertexIndex)(g.getSize() - 1)})
+            for (auto w : g.getOutNeighbours(v)) k += std::to_string(w) + ",";
+        return k;
+    }
+    Invalid(const G &g, const Model &m, ClauseSink &s, bool huge_ = false) : orig(g), m(m), sink(s), c(g), huge(huge_) { keyBefore = key(g); }
 
     // run one call that must be rejected with `want`
     template <class F> void reject(const std::string &entry, const std::string &text, Outcome want, F &&fn) {
@@ -50,7 +58,7 @@ template <class G> struct Invalid {
         }
         std::string after;
         try {
-            after = keyOf(c, true);
+            after = key(c);
         } catch (...) { after = "<key computation threw>"; }
         ++sink.evaluated;
         if (after != keyBefore || !(c == orig) || !(orig == c)) {
@@ -65,7 +73,8 @@ template <class G> struct Invalid {
         const unsigned n = m.n;
         const std::vector<unsigned> badValues = {n, n + 1, UINT_MAX};
         std::vector<unsigned> valid;
-        for (unsigned v = 0; v < n; ++v) valid.push_back(v);
+        if (!huge) for (unsigned v = 0; v < n; ++v) valid.push_back(v);
+        else valid = {0, n - 1};
         auto S = [](unsigned v) { return v == UINT_MAX ? std::string("UINT_MAX") : std::to_string(v); };
 
         // ---- one-vertex entry points
@@ -117,14 +126,23 @@ template <class G> struct Invalid {
             two("getEdgeLabel(i,j,false)", [](G &g, unsigned i, unsigned j) { (void)g.getEdgeLabel(i, j, false); });
             // subgraph extraction with a vertex set that contains an out-of-range member
             for (unsigned b : badValues)
-                for (unsigned mask = 0; mask < (1u << n); ++mask) {
+                for (unsigned mask = 0; mask < (huge ? 1u : (1u << n)); ++mask) {
                     std::unordered_set<VertexIndex> set = {b};
                     std::string st = "{" + S(b);
-                    for (unsigned v = 0; v < n; ++v)
+                    for (unsigned v = 0; v < n && !huge; ++v)
                         if (mask & (1u << v)) { set.insert(v); st += "," + std::to_string(v); }
                     st += "}";
                     reject("getSubgraph", "getSubgraph(g," + st + ")", THROW_OUT_OF_RANGE, [&](G &g) { (void)algorithms::getSubgraph(g, set); });
                     reject("getSubgraphWithRemap", "getSubgraphWithRemap(g," + st + ")", THROW_OUT_OF_RANGE, [&](G &g) { (void)algorithms::getSubgraphWithRemap(g, set); });
+                    // the same members inserted in the opposite order (valid ones first, the bad one last) and into a
+                    // set with many buckets: the enumeration order of an unordered_set depends on both
+                    std::unordered_set<VertexIndex> set2;
+                    set2.reserve(64);
+                    for (unsigned v = 0; v < n && !huge; ++v)
+                        if (mask & (1u << v)) set2.insert(v);
+                    set2.insert(b);
+                    reject("getSubgraph", "getSubgraph(g," + st + " bad member inserted last)", THROW_OUT_OF_RANGE, [&](G &g) { (void)algorithms::getSubgraph(g, set2); });
+                    reject("getSubgraphWithRemap", "getSubgraphWithRemap(g," + st + " bad member inserted last)", THROW_OUT_OF_RANGE, [&](G &g) { (void)algorithms::getSubgraphWithRemap(g, set2); });
                 }
             // path searches from / to a vertex that does not exist
             one("findVertexPredecessors", [](G &g, unsigned v) { (void)algorithms::findVertexPredecessors(g, v); });
@@ -170,8 +188,8 @@ template <class G> struct Invalid {
         }
 
         // ---- std::invalid_argument cases
-        for (unsigned k = 0; k < n; ++k) reject("resize(smaller)", "resize(" + std::to_string(k) + ")", THROW_INVALID_ARGUMENT, [&](G &g) { g.resize(k); });
-        for (unsigned i = 0; i < n; ++i)
+        for (unsigned k = 0; k < n; k += (huge ? n - 1 : 1)) reject("resize(smaller)", "resize(" + std::to_string(k) + ")", THROW_INVALID_ARGUMENT, [&](G &g) { g.resize(k); });
+        for (unsigned i = 0; i < n && !huge; ++i)
             for (unsigned j = 0; j < n; ++j) {
                 if (m.find(i, j)) continue;
                 std::string pr = "(" + std::to_string(i) + "," + std::to_string(j) + ")";
@@ -183,7 +201,7 @@ template <class G> struct Invalid {
                     reject("getEdgeWeight(absent)", "getEdgeWeight" + pr + " on an absent edge", THROW_INVALID_ARGUMENT, [&](G &g) { (void)g.getEdgeWeight(i, j); });
             }
         // finally the whole state oracle on the object that took all those rejected calls
-        if (sink.failures.empty()) {
+        if (sink.failures.empty() && !huge) {
             ClauseSink all;
             checkState(c, m, all);
             for (auto &f : all.failures) sink.fail("unchanged.observers", "after the sequence of rejected calls: " + f.second);
@@ -195,6 +213,36 @@ template <class G> int runOne(Family fam, bool directed, bool labelled, const st
     std::string variant = args.get("variant", "n2");
     E1Config cfg;
     cfg.name = name + "/" + variant;
+    if (variant == "huge") {
+        // graphs with 10^5 .. 10^6 vertices: rejection must not depend on the magnitude of size or index
+        Reporter rep;
+        rep.property = "C07";
+        rep.config = name + "/huge";
+        rep.tier = args.get("tier", "quick");
+        for (unsigned n : {100000u, 1234567u}) {
+            G g(n);
+            Model m;
+            m.directed = Tr<G>::directed;
+            m.n = n;
+            Op o;
+            o.k = ADD; o.i = 0; o.j = n - 1; o.v = fam == PLAIN ? (labelled ? 1 : 0) : (fam == MULTI ? 2 : 8);
+            applyReal(g, o);
+            applyModel(m, o, fam);
+            ClauseSink sink;
+            sink.property = "C07";
+            Invalid<G> inv(g, m, sink, true);
+            inv.run();
+            for (auto &f : sink.failures) rep.violation("C07:" + rep.config + ":" + f.first, "graph with " + std::to_string(n) + " vertices: " + f.second, "--variant huge");
+        }
+        rep.count("rejected_calls", (long long)g_calls);
+        rep.count("rejected_calls_on_nonempty_graphs", (long long)g_nontrivial);
+        rep.count("entry_points", (long long)g_entryPoints.size());
+        rep.count("states", 2);
+        std::string out = args.get("out", "");
+        if (!out.empty() && !rep.write(out)) return 2;
+        printf("C07 %s: rejected_calls=%llu violations=%llu wall=%.1fs\n", rep.config.c_str(), g_calls, rep.violations(), clock_().elapsed());
+        return 0;
+    }
     if (variant == "n2") { cfg.startSizes = {0, 1, 2}; cfg.maxN = 2; cfg.maxDepth = -1; }
     else if (variant == "n3d2") { cfg.startSizes = {3}; cfg.maxN = 3; cfg.maxDepth = 2; }
     else if (variant == "n3d3") { cfg.startSizes = {3}; cfg.maxN = 3; cfg.maxDepth = 3; }
